@@ -109,6 +109,23 @@ func c11Prop(st *CaseStats, fam int) func(t *rapid.T) {
 			}
 			labels = append(labels, "merger-output")
 		}
+		if rapid.IntRange(0, 2).Draw(t, "failedPersistFirst") == 0 {
+			// an earlier, failed attempt to persist the same segment (possibly its very first persist)
+			// must not influence later files
+			fw := &failAfter{k: rapid.IntRange(0, 300).Draw(t, "failAt")}
+			n, err := c.Seg.WriteTo(fw, nil)
+			if err == nil {
+				// the writer had room for the whole file: it must be a correct one
+				if n != int64(len(fw.buf)) {
+					t.Fatalf("%s:\n  WriteTo returned %d, wrote %d", desc, n, len(fw.buf))
+				}
+				if err := checkFile("Segment.WriteTo (small file)", fw.buf, c.Seg, c.Mode); err != nil {
+					t.Fatalf("%s:\n  %v", desc, err)
+				}
+			} else {
+				labels = append(labels, "after-failed-persist")
+			}
+		}
 		first, err := Persist(c.Seg) // also checks the returned byte count
 		if err != nil {
 			t.Fatalf("%s: %v", desc, err)
